@@ -252,10 +252,7 @@ class LedgerDevice:
 
     # ------------------------------------------------------------------ other
     def _other(self, apdu):
-        # a foreign application (e.g. the dashboard / another app)
-        ins = apdu[1]
-        if ins == INS_MODE:
-            return (bytes([CLA, self.mode & 0xff]), SW_OK)
+        # a foreign application (the dashboard / another app) does not know CLA 0x80
         return (b"", 0x6E00)
 
     # ------------------------------------------------------------------ UI
